@@ -252,7 +252,7 @@ func (g *tgen) failingOp(rt *rapid.T, db *model.DB) (model.Op, string) {
 	if classes == nil {
 		classes = []string{"missing-key-attr", "wrong-typed-key", "unknown-table", "unused-placeholder", "malformed-placeholder",
 			"failed-condition", "malformed-expression", "ill-typed-update", "last-action-fails", "index-key-type-put", "index-key-type-update",
-			"batch-unknown-table", "batch-bad-key", "batch-index-key-type", "key-attr-update", "oversized-index-key", "malformed-update", "invalid-return-values"}
+			"batch-unknown-table", "batch-bad-key", "batch-index-key-type", "key-attr-update", "oversized-index-key", "malformed-update", "invalid-return-values", "too-deep-document"}
 	}
 	class := rapid.SampledFrom(classes).Draw(rt, "failClass")
 	key := g.key(rt)
@@ -447,6 +447,25 @@ func (g *tgen) failingOp(rt *rapid.T, db *model.DB) (model.Op, string) {
 			op.Values = map[string]model.AV{":x": model.Str("y")}
 		}
 		return op, class
+	case "too-deep-document":
+		// a value nested just beyond DynamoDB's 32 levels (the library may or may
+		// not refuse it; if it does, after which of the expression's actions?)
+		depth := rapid.SampledFrom([]int{33, 34, 40}).Draw(rt, "nesting")
+		doc := model.Str("leaf")
+		for i := 0; i < depth; i++ {
+			if (i+depth)%3 == 0 {
+				doc = model.List(doc)
+			} else {
+				doc = model.Map(map[string]model.AV{"d": doc})
+			}
+		}
+		if rapid.IntRange(0, 3).Draw(rt, "deepPut") == 2 {
+			it := g.item(rt)
+			it["doc"] = doc
+			return model.Op{Kind: "Put", Table: g.s.Table, Item: it}, class
+		}
+		return model.Op{Kind: "Update", Table: g.s.Table, Key: key, Update: "SET extra = :x, doc = :doc",
+			Values: map[string]model.AV{":x": model.Str("y"), ":doc": doc}}, class
 	case "oversized-index-key":
 		// an index key value beyond DynamoDB's size limits (1024 bytes for a sort
 		// key, 2048 for a partition key), at and just above the boundary
@@ -509,8 +528,27 @@ func (g *tgen) failingOp(rt *rapid.T, db *model.DB) (model.Op, string) {
 	default: // key-attr-update
 		a := rapid.SampledFrom(g.s.KeyAttrs()).Draw(rt, "keyAttr")
 		v := drawKeyValue(rt, g.s.Attrs[a], g.o, "newKeyVal")
+		names := map[string]string{"#k": a}
+		switch rapid.IntRange(0, 5).Draw(rt, "keyAttrUpdateShape") {
+		case 1:
+			// the key attribute removed, after another action of the same expression
+			return model.Op{Kind: "Update", Table: g.s.Table, Key: key, Update: "SET extra = :x REMOVE #k",
+				Names: names, Values: map[string]model.AV{":x": model.Str("y")}}, class
+		case 2:
+			return model.Op{Kind: "Update", Table: g.s.Table, Key: key, Update: "REMOVE #k", Names: names}, class
+		case 3, 4:
+			// the key attribute re-typed
+			v = model.Num("7")
+			if g.s.Attrs[a] == "N" {
+				v = model.Str("seven")
+			}
+			if rapid.Bool().Draw(rt, "retypedKeyFirst") {
+				return model.Op{Kind: "Update", Table: g.s.Table, Key: key, Update: "SET #k = :k, extra = :x",
+					Names: names, Values: map[string]model.AV{":x": model.Str("y"), ":k": v}}, class
+			}
+		}
 		return model.Op{Kind: "Update", Table: g.s.Table, Key: key, Update: "SET extra = :x, #k = :k",
-			Names: map[string]string{"#k": a}, Values: map[string]model.AV{":x": model.Str("y"), ":k": v}}, class
+			Names: names, Values: map[string]model.AV{":x": model.Str("y"), ":k": v}}, class
 	}
 }
 
@@ -539,7 +577,7 @@ func TestC08(t *testing.T) {
 	st := stats.For("C08")
 	st.SetRule(ruleC08)
 	rapid.Check(t, func(rt *rapid.T) {
-		w := newWorld("C08", worldCfg{V1: true, V2: true, WhiteBox: true, IndexReads: true, Speculate: true, ErrorsSpeculative: true})
+		w := newWorld("C08", worldCfg{V1: true, V2: true, WhiteBox: true, IndexReads: true, Speculate: true, ErrorsSpeculative: true, KeyMutSpeculative: true})
 		s := drawSchema(rt, "tbl", schemaCfg{KeyTypes: []string{"S", "S", "N"}, MaxIndexes: 3})
 		o := avOpts(2, true)
 		g := newTgen(rt, s, o, rapid.IntRange(3, 5).Draw(rt, "poolSize"))
